@@ -4,6 +4,7 @@ from ..core import queries as Q
 from ..core.program import fmt_term, fmt_atom
 
 META = {
+    "technique": "static analysis: repository-specific guard-dominance / typestate / path rules over LLVM IR (CFG, SSA, resolved call graph), table extraction by finite evaluation (close codes, HTTP version), constants from the units' macro tables",
     "explanation": (
         "(1) close discipline (typestate over ws_handle_frame, the ws_get_* read callbacks and the header-line callback): a path "
         "on which the module itself decides the verdict returns CLOSED with exactly one close (handle_error / websocket_close) "
